@@ -20,7 +20,8 @@ Families added after the audit (.cache/audit/C16.md), all inside the same alphab
       pointer from ffi.new("T *") accepts exactly p[0:0], p[0:1], p[1:1]; malformed slices raise IndexError;
     * slice assignments whose source OVERLAPS the target (x[i:j] = x[i+1:j+1], x[i-1:j-1], and iter(...) of them);
     * a second shape list (SHAPES2): int[3][2] (x[i] is a view: a read descends into the row), int *[3], double[3],
-      unsigned char[4] (bytes sources), wchar_t[3] (str sources), int[0] three ways, void * arithmetic;
+      unsigned char[4] (bytes sources), wchar_t[3] (str sources), int[0] three ways, void * arithmetic, and int[4]
+      arrays of other provenance (struct field with real neighbours, ffi.gc(), new_allocator());
     * indices / slice bounds -2**63, -2**63-1, -2**64; reflected arithmetic i + x (== x + i) and i - x (TypeError).
 
 Passes (alphabets nest: core < narrow < wide; sizes on int[4]: 32 / 54 / 255):
@@ -43,9 +44,10 @@ META = dict(
     technique="explicit-state search over all operation histories (index, slice, slice-assign, pointer arithmetic, "
               "addressof/offsetof, derived views) of real cdata objects in lock-step with a byte model, canaries "
               "around the storage",
-    text="From 20 array/pointer shapes (int[4], char[5], struct[3], long long[] n=3, owned and from_buffer-backed, "
+    text="From 23 array/pointer shapes (int[4], char[5], struct[3], long long[] n=3, owned and from_buffer-backed, "
          "owning pointers, a pointer into the middle of an array; second list: int[3][2] whose items are views, "
-         "int *[3], double[3], unsigned char[4], wchar_t[3], int[0] cast/new/open, a void * into 8 bytes) x both FFI "
+         "int *[3], double[3], unsigned char[4], wchar_t[3], int[0] cast/new/open, a void * into 8 bytes, an int[4] that "
+         "is a struct field between two other fields, an ffi.gc() array, a custom-allocator array) x both FFI "
          "front ends: quick = every history of "
          "length <= 2 with at most one operation outside a 32-operation core alphabet (255-operation wide alphabet, "
          "no merging) and the core alphabet to depth 3 (merging beyond depth 1); thorough = all pairs over the wide "
@@ -115,6 +117,10 @@ SHAPES2 = [
     ("dbl", 3, "cast"),
     ("pp", 3, "new"),          # int *[3]
     ("void", 8, "midptr"),     # void * into the middle of 8 bytes: arithmetic with item size 1
+    # arrays of other provenance / Python type (audit gap 6)
+    ("int", 4, "field"),       # p.a of struct F { int pre[4]; int a[4]; int post[4]; }: the neighbours are real fields
+    ("int", 4, "gc"),          # ffi.gc(ffi.new("int[4]"), destructor)             -> CDataGCP, cdata_subscript
+    ("int", 4, "alloc"),       # ffi.new_allocator(alloc, free)("int[4]")
 ]
 FFIKINDS = ("inline", "ool")
 
@@ -215,7 +221,7 @@ def get_ffi(kind):
         return _FFI[kind]
     import cffi
     f = cffi.FFI()
-    f.cdef("struct S { short a; char b; };")
+    f.cdef("struct S { short a; char b; }; struct F { int pre[4]; int a[4]; int post[4]; };")
     if kind == "ool":
         import contextlib
         import importlib.util
@@ -503,6 +509,10 @@ def _flush():
     _CUR[0] = None
 
 
+def _no_destructor(p):
+    return None
+
+
 class Sys(object):
     def __init__(self, cfg):
         _flush()
@@ -566,13 +576,38 @@ class Sys(object):
             elif how == "ownptr":
                 x = ffi.new(ptr_t(elem))
                 self.view = ("own", 0, None)
+            elif how == "field":
+                if (elem, n) != ("int", 4) or PRE != 16 or POST != 16:
+                    raise InfraError("struct F is declared for int[4] between 16-byte neighbours")
+                holder = ffi.new("struct F *")
+                self.keep.append(holder)
+                x = holder.a
+                self.view = ("arr", 0, n)
+                self.lo = PRE                   # the image includes the neighbouring fields as canaries
+            elif how == "gc":
+                owner = ffi.new(arr_t(elem, n))
+                self.keep.append(owner)
+                x = ffi.gc(owner, _no_destructor)
+                self.view = ("arr", 0, n)
+            elif how == "alloc":
+                store = self.keep
+
+                def alloc(size):
+                    b = ffi.new("char[]", size)
+                    store.append(b)
+                    return b
+                x = ffi.new_allocator(alloc=alloc, free=_no_destructor, should_clear_after_alloc=False)(arr_t(elem, n))
+                self.view = ("arr", 0, n)
             else:
                 raise InfraError("bad how %r" % (how,))
             self.root = self.cur = x
             self.base_addr = int(ffi.cast("uintptr_t", x))
             # give owned memory the same distinctive initial content (through ctypes, not cffi)
             import ctypes
-            ctypes.memmove(self.base_addr, bytes(init[PRE:PRE + total]), total)
+            if self.lo:
+                ctypes.memmove(self.base_addr - PRE, bytes(init), len(init))
+            else:
+                ctypes.memmove(self.base_addr, bytes(init[PRE:PRE + total]), total)
         # the model's image: the complete backing (canaries included) or just the owned bytes
         if self.backing is not None:
             self.M = bytearray(self.backing)
@@ -590,6 +625,8 @@ class Sys(object):
         if self.backing is not None:
             return bytes(self.backing)
         import ctypes
+        if self.lo:
+            return ctypes.string_at(self.base_addr - PRE, PRE + self.total + POST)
         return ctypes.string_at(self.base_addr, self.total)
 
     def addr(self, c):
